@@ -16,6 +16,8 @@ GRIDS = {
     "g1": {"NT": 2, "DT": 1000, "DT_SAMPLE": 1000, "NTV": 61, "DELTA_P": 0.5, "DELTA_P_SAMPLE": 0.5},
     "g2": {"NT": 6, "DT": 50, "DT_SAMPLE": 50, "T_MIN": 100, "NTV": 45, "DELTA_P": 0.7, "DELTA_P_SAMPLE": 0.7, "P_MIN": 2},
     "g3": {"volume_ratio": 1.3, "NTV": 51, "P_MIN": -3, "NT": 3},
+    "g4": {"order": 4, "NTV": 47},          # 4th/5th-order finite-strain fit of F(T,V) in the QHA layer; the static
+    "g5": {"order": 5, "NT": 2, "DT": 800, "DT_SAMPLE": 800},   # pressure of the property stays the cubic fit's
 }
 DIMS = OrderedDict([
     ("nv", [6, 4, 12]),
@@ -24,7 +26,8 @@ DIMS = OrderedDict([
     ("system", [None] + synth.SYSTEMS),
     ("compset", ["minimal", "nonzero", "full21"]),
     ("static", ["cubicfit", "generic"]),
-    ("grid", ["g0", "g1", "g2", "g3"]),
+    ("grid", ["g0", "g1", "g2", "g3", "g4", "g5"]),
+    ("cwd", ["neutral", "decoy-inputs"]),
     ("weights", ["increasing", "equal", "scaled"]),
     ("poly_degree", [2, 1]),
 ])
@@ -61,11 +64,18 @@ def run_case(case):
     from mc.ref import pipeline_ref as P
     spec = spec_of(case)
     viol = []
-    with K.scratch() as d:
+    with K.scratch() as d, K.scratch() as elsewhere:
         ds, st = synth.write(d, spec)
+        if case.get("cwd") == "decoy-inputs":
+            # the process runs in a directory that holds same-named files of ANOTHER data set; the settings file is
+            # addressed by absolute path, so the inputs next to it are the ones that must be read
+            other = dict(spec, nv=5, lattice="none" if spec["lattice"] != "none" else "power", static="cubicfit" if spec["static"] != "cubicfit" else "generic",
+                         wset="low", weights="equal")
+            synth.write(elsewhere, other)
         try:
             from cij.core.calculator import Calculator
-            c = Calculator(os.path.join(d, "settings.yaml"))
+            with K.chdir(elsewhere):
+                c = Calculator(os.path.join(d, "settings.yaml"))
             iso, adi = c.modulus_isothermal, c.modulus_adiabatic
         except Exception as ex:
             return {"viol": [V(f"c05:raises:{type(ex).__name__}", f"Calculator on a well-formed data set raised {K.fmt_exc(ex)}")], "outcome": "raises"}
@@ -120,7 +130,8 @@ def canon(case):
 
 def explore(ctx):
     ctx.rule = ("mode A: BFS over the deviation lattice of data-set and configuration alphabets (volumes, shape, lattice block, "
-                "10 system settings, component set, static-table kind, 4 grids, weights, spectrum degree); every configuration is a "
+                "10 system settings, component set, static-table kind, 6 grids incl. QHA fit order 4 and 5, working directory with decoy "
+                "same-named inputs, weights, spectrum degree); every configuration is a "
                 "real Calculator run on generated files compared with pipeline_ref (own parsers, own V*c fit, own strain rule, own "
                 "qha instance, sam_ref); level-<=1 configurations also re-run with the static table scaled by 1.37; non-trivial = all")
     ctx.assumptions = ["qha 1.1.3 trusted as a library (its grid, P(T,V), C_V)", "spectra are polynomial in ln V of degree <= interpolation order, so the interpolant is exact",
